@@ -93,6 +93,7 @@ MUTANTS = {
         ("patch:own-c19-zero-minimum-depth",),
         ("patch:own-c19-contig-absent",),
         ("patch:own-c19-reference-skip-ignored",),
+        ("patch:own-c19-neutral-contig-absent",),
         ("patch:own-c19-simple-line-sample-refused",),
         ("avg-depth-guard-removed", "aldy/genotype.py", "        if avg_cov < profile.min_avg_coverage or avg_cov <= 0:", "        if False:"),
         ("oserror-swallowed", "aldy/sam.py", "            for read in iter:\n                if not read.cigartuples:  # only valid alignments", "            for read in _safe(iter):\n                if not read.cigartuples:  # only valid alignments"),
